@@ -360,7 +360,7 @@ func allOpSpecs() []opSpec {
 		r = append(r, opSpec{kAssign, o, 2})
 	}
 	r = append(r, opSpec{kCond, "?:", 3}, opSpec{kComma, ",", 2}, opSpec{kComma, ",", 3},
-		opSpec{kDot, "p", 1}, opSpec{kOptDot, "p", 1}, opSpec{kIndex, "[]", 2}, opSpec{kOptIndex, "?.[]", 2},
+		opSpec{kDot, "p", 1}, opSpec{kOptDot, "p", 1}, opSpec{kDot, "new", 1}, opSpec{kOptDot, "class", 1}, opSpec{kOptDot, "in", 1}, opSpec{kIndex, "[]", 2}, opSpec{kOptIndex, "?.[]", 2},
 		opSpec{kCall, "()", 2}, opSpec{kCall, "()", 3}, opSpec{kOptCall, "?.()", 2}, opSpec{kNew, "new", 1}, opSpec{kNewArgs, "new()", 2}, opSpec{kTag, "`t`", 1},
 		opSpec{kArrow, "q", 1}, opSpec{kYield, "yield", 1}, opSpec{kYieldStar, "yield*", 1})
 	return r
